@@ -310,7 +310,62 @@ def run(tier):
                         "server-side acceptance code depends on it" % (rec, fld, why), file="matrixssl/tls13Resume.c", line=1)
         res.instance("C14.R4", "%s.%s consulted at %s" % (rec, fld, where[:3]), bool(where), finding=f)
     rule_R5(res, prog, cg)
+    rule_R1e(res, prog)
     return res.finish()
+
+
+def rule_R1e(res, prog, prop=PROP, rid="C14.R1e"):
+    """RFC 7627 5.3 on the session-id cache: a resumption must use the extended master secret exactly when the original
+    session did.  No success path of matrixResumeSession may be consistent with (stored, offered) = (0,1) or (1,0): the
+    outcomes of the branch conditions on the two flags along the path must rule both combinations out - a guard that is
+    weakened by an extra conjunct leaves a success path on which the mismatch survives."""
+    import re
+    from sa import cfgutil as cu
+    res.rule(rid, "session-id resumption succeeds only when the stored and the offered extended-master-secret flags agree")
+    fn = prog.fn("matrixResumeSession")
+    S = "g_sessionTable[i].extendedMasterSecret"
+    O = "ssl->extFlags.extended_master_secret"
+
+    def watch(t):
+        return S in t or O in t
+    rets, nodes = cu.returns_with_atoms(fn, watch)
+    succ = [(ln, rid, at) for (ln, rid, at) in rets if cu.success_ret(nodes[rid])]
+    if not succ:
+        raise AnalysisBroken("C14.R1e: matrixResumeSession has no success return")
+
+    def consistent(atoms, sval, oval):
+        for (txt, tr) in atoms:
+            m = re.match(r"^\((.*) (==|!=) (-?\d+)\)$", txt)
+            if m:
+                lhs, op, k = m.group(1), m.group(2), int(m.group(3))
+            else:
+                lhs, op, k = txt, "!=", 0           # bare truth value
+            if lhs == S:
+                v = sval
+            elif lhs == O:
+                v = oval
+            else:
+                continue
+            holds = (v == k) if op == "==" else (v != k)
+            if holds != tr:
+                return False
+        return True
+    bad = None
+    for (ln, rid, at) in sorted(succ, key=lambda x: x[0]):
+        for (sv, ov) in ((0, 1), (1, 0)):
+            if consistent(at, sv, ov):
+                bad = (ln, sv, ov, sorted(at))
+                break
+        if bad:
+            break
+    f_ = None
+    if bad:
+        f_ = Finding(prop, rid, fn.name, "resumption succeeds with mismatching extended-master-secret use",
+                     "matrixResumeSession reaches the success return at line %s on a path consistent with stored EMS = %d and "
+                     "offered EMS = %d (branch outcomes on the path: %s): RFC 7627 5.3 requires a full handshake" % (
+                         bad[0], bad[1], bad[2], bad[3]), file=fn.relfile, line=bad[0])
+    res.instance(rid, "matrixResumeSession: %d success path classes, none consistent with an EMS mismatch" % len(succ),
+                 bad is None, finding=f_)
 
 
 def rule_R5(res, prog, cg):
